@@ -180,7 +180,8 @@ PROPS = {
              "read-only replay (passes, no write), changed values without update (one error, untouched), update (file replaced wholesale, unchanged files not written). "
              "non-trivial = a value with CR, a terminator-like line, an empty value, >= 2 executions, >= 10 calls, or an update to a shorter value; distinct = distinct canonical JSON",
         assumptions=ASSUME_WB + ["standalone ordinals count per resolved file pattern (README: _1.snap and _1.snap.html for different Ext)"],
-        stages=[dict(name="standalone", run="^TestC19_", quick=800, thorough=10000, shards_quick=4, shards_thorough=16)],
+        stages=[dict(name="standalone", run="^TestC19_", quick=800, thorough=10000, shards_quick=4, shards_thorough=16),
+                dict(name="real_program", engine="bb", run="^TestC19BB_", quick=40, thorough=600, shards_quick=4, shards_thorough=16, trimpath=True)],
     ),
     "C20": dict(
         rule="sequential: histories as C03 (every process executes a test at most once) with all outcome classes (passed, added, updated, failed by mismatch / invalid input / failing matcher / missing on CI / "
